@@ -42,7 +42,14 @@ def main(argv=None):
         chk = load_check(d["property"])
         from pyvc.check import _replay_or_search
         ob = d["obligation"]
-        if ".bounded_stand_in." in ob:
+        if ".bounded_native_audit." in ob:
+            rep = dict(reproduced=False)
+            for a in chk.audits("quick"):
+                ar = a()
+                if not ar.ok and ar.violation:
+                    rep = dict(reproduced=True, **ar.violation)
+                    break
+        elif ".bounded_stand_in." in ob:
             # a violation found by a bounded native stand-in: run the stand-in again on the current tree
             rs = [r for r in chk.bounded_stand_in("quick", ["*"]) if r.get("reproduced")] if hasattr(chk, "bounded_stand_in") else []
             if not rs:
